@@ -827,6 +827,11 @@ func (r *runner) exec(cmd string, kv map[string]string) (reply, viol string) {
 			return m.SetSyncedTo(ns, &waddrmgr.BlockStamp{Height: int32(h), Hash: hashOf(x), Timestamp: time.Unix(1700000000, 0)})
 		})
 		return e(err), ""
+	case "setbirthday":
+		err := r.update(func(ns walletdb.ReadWriteBucket) error {
+			return m.SetBirthdayBlock(ns, waddrmgr.BlockStamp{Height: 0, Hash: *params.GenesisHash}, true)
+		})
+		return e(err), ""
 	case "privkey", "script":
 		s, err := r.scoped(sc)
 		if err != nil {
